@@ -1,5 +1,5 @@
 """C13 — blocking calls never outlive their context (partial: deadline arithmetic proved, wall clock measured)."""
-import json
+import json, os, re
 from . import core
 
 RULE = ("real UDP sockets on loopback (DialV2, the library's own transport and 500 ms exponential back-off), a fault-injecting server "
@@ -10,6 +10,103 @@ RULE = ("real UDP sockets on loopback (DialV2, the library's own transport and 5
         "same connection is still live.  predicates: the call returns within deadline + 250 ms (a watchdog turns a "
         "hang into a violation) with an error when no valid response could be obtained; never success without a valid response; an "
         "expired context returns within 250 ms with an error and at most one datagram.  distinct by (call, fault, step, ratio)")
+
+TIE_RULE = (" + tie of the timing model (Timing.v / TimingProc.v) to the library: scenarios with a constant 100 ms back-off (DialV2ForVerif), timeout "
+            "200 ms, deadline 880 ms - silent peer, garbage / busy on every attempt, two lost replies then an answer, a handshake whose k-th "
+            "exchange meets the silent peer, an in-session command and a session close meeting the silent peer - are evaluated by vm_compute "
+            "on run_calls inside Coq and run against the library over real sockets: the number of datagrams must equal the model's attempts, "
+            "success must agree, and the elapsed time must lie within [end - 15 ms, end + allowance] of the model's end time "
+            "(skipped, and counted as skipped, when a 5 ms sleep beside the call was more than 25 ms late)")
+
+
+def tie_cases():
+    """(harness request, model: (sess, [(attempts, sleeps)...]))  - times in ms; T = 200, back-off 100, D = 880"""
+    T, D, S = 200, 880, 100
+    silent = ("[" + ";".join(["(5000, Final)"] * 8) + "]", "[" + ";".join([str(S)] * 8) + "]")
+    again = ("[" + ";".join(["(1, Again)"] * 20) + "]", "[" + ";".join([str(S)] * 20) + "]")
+    ok = ("[(1, Final)]", "[%d]" % S)
+    two_lost = ("[(5000, Final); (5000, Final); (1, Final)]", "[%d; %d; %d]" % (S, S, S))
+    base = {"timeout_ms": T, "deadline_ms": D, "backoff_ms": S}
+    cs = [
+        (dict(base, call="sessionless", fault="blackhole", **{"from": 0}), (False, [silent])),
+        (dict(base, call="sessionless", fault="garbage", **{"from": 0}), (False, [again])),
+        (dict(base, call="sessionless", fault="busy", **{"from": 0}), (False, [again])),
+        (dict(base, call="sessionless", fault="blackhole", until=2, **{"from": 0}), (False, [two_lost])),
+        (dict(base, call="open", fault="blackhole", **{"from": 1}), (False, [ok, silent])),
+        (dict(base, call="open", fault="blackhole", **{"from": 3}), (False, [ok, ok, ok, silent])),
+        (dict(base, call="session", fault="blackhole", **{"from": 0}), (True, [silent])),
+        (dict(base, call="close", fault="blackhole", **{"from": 0}), (True, [silent])),
+    ]
+    return T, D, cs
+
+
+def model_eval(cases, T, D):
+    """evaluate run_calls on the cases inside Coq (vm_compute): [(end, ok, attempts)] or None"""
+    items = []
+    for _, (sess, calls) in cases:
+        items.append("  out (run_calls %s 0 %d %d [%s])" % ("true" if sess else "false", D, T, "; ".join("(%s, %s)" % c for c in calls)))
+    src = ("From BMC Require Import Base Timing TimingProc.\n"
+           "Definition out (p : proc_result) : N * bool * N := (pr_end p, pr_ok p, N.of_nat (pr_attempts p)).\n"
+           "Definition results := Eval vm_compute in [\n" + ";\n".join(items) + "\n]%N.\nPrint results.\n")
+    d = os.path.join(core.COQ, ".pa")
+    os.makedirs(d, exist_ok=True)
+    name = "TimingTie_%d" % os.getpid()
+    f = os.path.join(d, name + ".v")
+    open(f, "w").write(src)
+    rc, out = core.sh(["coqc", "-Q", "theories", "BMC", "-Q", "gen", "BMCGen", "-Q", "props", "BMCProps", f], cwd=core.COQ, timeout=600)
+    for g in os.listdir(d):
+        if g.startswith(name) or g.startswith("." + name):
+            try: os.remove(os.path.join(d, g))
+            except OSError: pass
+    if rc != 0:
+        return None, out
+    res = [(int(a), b == "true", int(c)) for a, b, c in re.findall(r"\(\s*(\d+)(?:%N)?,\s*(true|false),\s*(\d+)(?:%N)?\)", out)]
+    if len(res) != len(cases):
+        return None, out
+    return res, out
+
+
+def run_tie(ch):
+    T, D, cases = tie_cases()
+    model, log = model_eval(cases, T, D)
+    if model is None:
+        ch.corr_break({"kind": "c13-tie", "call": "model"}, {"broken": "the timing model could not be evaluated inside Coq (Timing.v / TimingProc.v)", "log": log[-1500:]})
+        return
+    lines = ["c13 " + json.dumps(rq, separators=(",", ":")) for rq, _ in cases]
+    import concurrent.futures as cf
+    with cf.ThreadPoolExecutor(max_workers=4) as ex:
+        outs = list(ex.map(lambda l: core.run_lines(core.HARNESS, [l], 120)[0], lines))
+    skipped = 0
+    for (rq, (sess, calls)), (end, ok, attempts), o in zip(cases, model, outs):
+        res = json.loads(o)
+        desc = {"kind": "c13-tie", "call": rq["call"], "fault": rq["fault"], "from": rq["from"]}
+        ch.note_case("c13-tie-%s-%s" % (rq["call"], rq["fault"]), json.dumps(rq))
+        detail = {"request": rq, "result": res, "model": {"end_ms": end, "ok": ok, "attempts": attempts}}
+        if res.get("setup"):
+            ch.corr_break(dict(desc, kind="setup"), dict(detail, what="scenario setup failed: " + res["setup"]))
+            continue
+        # the property's own predicate first: a call that outlives its context is a violation, whatever the model says
+        if res["hang"] or res["elapsed_ms"] > rq["deadline_ms"] + ALLOW_MS + 3 * res.get("jitter_ms", 0):
+            ch.violation(desc, dict(detail, what="returned after %.0f ms, context allowed %d ms" % (res["elapsed_ms"], rq["deadline_ms"])))
+            continue
+        if (res["err"] == "nil") and not ok:
+            ch.violation(desc, dict(detail, what="success reported although no valid response can have arrived in this scenario"))
+            continue
+        if res.get("jitter_ms", 0) > 25:
+            skipped += 1
+            continue
+        diffs = []
+        if res["datagrams"] != attempts:
+            diffs.append("datagrams %d, model attempts %d" % (res["datagrams"], attempts))
+        if (res["err"] == "nil") != ok:
+            diffs.append("library %s, model %s" % (res["err"], "success" if ok else "failure"))
+        if not (end - 15 <= res["elapsed_ms"] <= end + ALLOW_MS):
+            diffs.append("elapsed %.0f ms, model end %d ms" % (res["elapsed_ms"], end))
+        if diffs:
+            ch.corr_break(desc, dict(detail, broken="correspondence of the timing model (TimingProc.run_calls / retry_k, theorems C13_loop_*, "
+                                     "C13_procedure_*) with the library over real sockets: " + "; ".join(diffs)))
+    ch.extra["timing_model_tie"] = {"scenarios": len(cases), "skipped_for_timer_lateness": skipped}
+
 
 CALLS = {"sessionless": 1, "open": 5, "session": 1, "close": 1, "sdr": 6}
 ALLOW_MS = 250
@@ -77,11 +174,12 @@ def run(ch, build):
         if not unaffected and res["err"] == "nil" and res["datagrams"] > rq["from"]:
             # success is legitimate only when every request of the call was answered before the fault began
             ch.violation(desc, dict(detail, what="success reported although requests from #%d on never got a valid response" % rq["from"]))
+    run_tie(ch)
     ch.extra["worst_overrun_ms"] = round(worst, 1)
     ch.extra["allowance_ms"] = ALLOW_MS
     ch.extra["worst_timer_lateness_ms"] = round(worst_jitter, 1)
-    return ch.finish(rule=RULE, assumptions=[
-        "the theorem part is about the deadline arithmetic of the retry loop (Timing.v); scheduler, kernel socket deadlines and wall-clock behaviour are measured, not proved",
+    return ch.finish(rule=RULE + TIE_RULE, assumptions=[
+        "the theorem part is about the deadline arithmetic of the retry loops and their compositions (Timing.v, TimingProc.v: one loop, a procedure of exchanges under one context, the outer loop of SDR retrieval), with cenkalti/backoff v4.3.0's Retry re-modelled; scheduler, kernel socket deadlines and wall-clock behaviour are measured, not proved",
         "loopback UDP; scheduling allowance 250 ms"])
 
 
